@@ -166,30 +166,45 @@ func inlineText(s *spec, e *expectation) string {
 	return b.String()
 }
 
-// scratch is one worker's private directory.
+// scratch is one worker's private directory. Every placement gets its own sub-directory (slot), so
+// files of one placement can never be picked up by another; within a slot a file is rewritten only
+// when its text changes and removed when the next case does not have it.
 type scratch struct {
-	dir     string
-	written []string
-	made    map[string]bool
+	dir   string
+	slot  string
+	slots map[string]map[string]string // slot -> rel path -> text on disk
+	made  map[string]bool
 }
 
 func newScratch(dir string) *scratch {
 	if err := os.MkdirAll(dir, 0o755); err != nil {
 		fatalf("cannot create scratch %s: %v", dir, err)
 	}
-	return &scratch{dir: dir, made: map[string]bool{}}
+	return &scratch{dir: dir, slots: map[string]map[string]string{}, made: map[string]bool{}}
 }
 
-// install replaces the scratch content by exactly the given files.
-func (sc *scratch) install(files map[string]string) {
-	for _, w := range sc.written {
-		if err := os.Remove(w); err != nil && !os.IsNotExist(err) {
-			fatalf("cannot remove %s: %v", w, err)
+// install makes the slot contain exactly the given files.
+func (sc *scratch) install(slot string, files map[string]string) {
+	sc.slot = slot
+	have := sc.slots[slot]
+	if have == nil {
+		have = map[string]string{}
+		sc.slots[slot] = have
+	}
+	for rel := range have {
+		if _, ok := files[rel]; !ok {
+			abs := filepath.Join(sc.dir, slot, rel)
+			if err := os.Remove(abs); err != nil && !os.IsNotExist(err) {
+				fatalf("cannot remove %s: %v", abs, err)
+			}
+			delete(have, rel)
 		}
 	}
-	sc.written = sc.written[:0]
 	for rel, text := range files {
-		abs := filepath.Join(sc.dir, rel)
+		if old, ok := have[rel]; ok && old == text {
+			continue
+		}
+		abs := filepath.Join(sc.dir, slot, rel)
 		d := filepath.Dir(abs)
 		if !sc.made[d] {
 			if err := os.MkdirAll(d, 0o755); err != nil {
@@ -200,11 +215,11 @@ func (sc *scratch) install(files map[string]string) {
 		if err := os.WriteFile(abs, []byte(text), 0o644); err != nil {
 			fatalf("cannot write %s: %v", abs, err)
 		}
-		sc.written = append(sc.written, abs)
+		have[rel] = text
 	}
 }
 
-func (sc *scratch) abs(rel string) string { return filepath.Join(sc.dir, rel) }
+func (sc *scratch) abs(rel string) string { return filepath.Join(sc.dir, sc.slot, rel) }
 
 func sortedKeys(m map[string]string) []string {
 	k := make([]string, 0, len(m))
